@@ -44,6 +44,7 @@ def normalise(prog):
         r.setdefault('recreq', {})
         r.setdefault('recfalsy', [])
         r.setdefault('plan_it', {})
+        r.setdefault('recnone', {})
     prog.setdefault('collab', {})
     return prog
 
@@ -343,6 +344,7 @@ def to_tla(prog):
             'plan': {i: [parse_outcome(o) for o in (r['plan'].get(i) or ['ok'])] for i in ids},
             'recreq': {i: int(r['recreq'].get(i, -1)) for i in ids},
             'recfalsy': {i: i in r.get('recfalsy', ()) for i in ids},
+            'recnone': {i: [int(x) for x in r.get('recnone', {}).get(i, [])] for i in ids},
             'plan_it': {i: [[parse_outcome(o) for o in ep] for ep in (r.get('plan_it', {}).get(i) or [])] for i in ids},
         })
     byid = node_by_id(prog)
@@ -352,11 +354,17 @@ def to_tla(prog):
             if p['kind'] == 'rec':
                 anc = ancestors(prog, p['dest'], byid) | {p['dest']}
                 rec_inside |= {m for m in anc if m == p['start'] or p['start'] in ancestors(prog, m, byid)}
+    rec_members = {i: ['-'] for i in ids}
+    for n in prog['nodes']:
+        for q in n['params']:
+            if q['kind'] == 'rec':
+                anc = ancestors(prog, q['dest'], byid) | {q['dest']}
+                rec_members[q['dest']] = sorted(m for m in anc if m == q['start'] or q['start'] in ancestors(prog, m, byid))
     depth = plain_depths(prog)
     slack = sum(x['delay'] * max(0, x['attempts'] - 1) for x in nodes)
     return {'name': prog.get('name', '?'), 'fp': fingerprint(prog), 'nodes': nodes, 'ids': ids,
             'input': prog['input'], 'output': prog['output'], 'runs': runs, 'order': order,
             'has_switch': 'switch' in kinds, 'has_oneof': 'oneof' in kinds, 'has_rec': 'rec' in kinds,
             'plain': depth is not None, 'depth': depth if depth is not None else {i: -1 for i in ids},
-            'slack': slack, 'amb': is_ambiguous(prog), 'rec_inside': sorted(rec_inside) or ['-'],
+            'slack': slack, 'amb': is_ambiguous(prog), 'rec_inside': sorted(rec_inside) or ['-'], 'rec_members': rec_members,
             'case_nodes': sorted({c for n in prog['nodes'] for q in n['params'] if q['kind'] == 'switch' for _, c in q['cases']}) or ['-']}
